@@ -159,6 +159,10 @@ def classify(prog, fi, g, dom, n, c):
             if types == ["TypeError"]:
                 return "argument mismatch", spec.CODE_PARAMS
             return "exception raised by the method", spec.CODE_INTERNAL
+        if name == "do_POST" and not try_calls(prog, fi, t, lambda r, cc: call_name(cc) in ("read", "_marshaled_dispatch", "decode_request_content")):
+            # a guard around the inspection of the HTTP request itself (headers), not around reading, decoding or dispatching the
+            # body: no JSON-RPC failure class of the property applies to a request whose body was never looked at
+            return "HTTP request rejected before its body is read", "any"
         return "exception around dispatch / conversion / request handling", spec.CODE_INTERNAL
     if name == "validate_request":
         return "structurally invalid request", spec.CODE_INVALID
@@ -213,7 +217,7 @@ def check(ck):
             ck.bad("C05.1", label, "Fault site whose failure class the spec table does not know "
                    "(code %s): cannot be matched with a standard code" % code, q.loc(fi, n))
             continue
-        ck.require(code == expected, "C05.1", label, "code %s" % code,
+        ck.require(code == expected or expected == "any", "C05.1", label, "code %s" % code,
                    "%s is reported with code %s, the standard code is %s" % (cls, dump(code_e) if code_e is not None else "default -32000", expected),
                    q.loc(fi, n))
         ck.require(code is not None and code < 0, "C05.1b", label, "integer literal code",
